@@ -99,6 +99,7 @@ func (q *TellHub[A]) CloseWithError(err error) {
 }
 
 type serveReq[A p2p.Addr] struct {
+	ctx  context.Context
 	msg  p2p.Message[A]
 	resp []byte
 	n    int
@@ -130,7 +131,13 @@ func (q *AskHub[A]) ServeAsk(ctx context.Context, fn func(context.Context, []byt
 	case <-q.closed:
 		return q.err
 	case req := <-q.reqs:
-		req.n = fn(ctx, req.resp, req.msg)
+		// the handler's context also ends when the asker's does: a handler that
+		// forwards the request (multiplexers, multi-transport) must not outlive it
+		hctx, cf := context.WithCancel(ctx)
+		stop := context.AfterFunc(req.ctx, cf)
+		req.n = fn(hctx, req.resp, req.msg)
+		stop()
+		cf()
 		close(req.done)
 		return nil
 	}
@@ -141,6 +148,7 @@ func (q *AskHub[A]) Deliver(ctx context.Context, respData []byte, msg p2p.Messag
 		return 0, err
 	}
 	req := &serveReq[A]{
+		ctx:  ctx,
 		msg:  msg,
 		resp: respData,
 		done: make(chan struct{}),
